@@ -8,3 +8,4 @@ HARNESSES += h_fwd-aa_int h_fwd-aa_sdbm h_fwd-aa_bool_int h_fwd-as_disint h_fwd-
 HARNESSES += h_transform h_dataflow
 HARNESSES += h_bwd-interval h_bwd-sdbm h_bwd-soct h_bwd-bool_int h_bwd-dbm h_bwd-aa_int
 HARNESSES += h_inter-interval h_inter-sdbm h_inter-bool_int h_inter-bu_sdbm_interval h_inter-bu_interval_interval h_inter-bu_sdbm_sdbm h_inter-bu_term_int_interval
+HARNESSES += h_rgn-interval h_rgn-bool_int h_rgn-sdbm h_rgn-constant h_rgn-sign_constant
